@@ -795,7 +795,16 @@ def gen_alias_arch(rnd):
     arch += ["  cfgB:", "  - name: System", "    attributes:", "      clock_frequency: %d" % fb,
              "    local:", "    - name: MemB", "      class: DRAM", "      attributes:",
              "        bandwidth: 256", "    subtree:"]
-    if deep:
+    samename = rnd.random() < 0.35
+    if samename:
+        # no alias: configuration B declares its OWN level with the same component names but
+        # another instance range (as tests/integration/outerspace.yaml reuses names)
+        npe2 = rnd.choice([n2 for n2 in (1, 2, 4, 8, 16) if n2 != npe])
+        own = [l.replace("    - &pe", "    -").replace("PE[0..%d]" % (npe - 1),
+                                                        _level_name("PE", npe2)) for l in pe]
+        own[0:2] = ["    - name: %s" % _level_name("PE", npe2)]
+        arch += own
+    elif deep:
         arch += ["    - name: %s" % _level_name("Chip", nchip), "      subtree:", "      - *pe"]
     else:
         arch += ["    - *pe"]
@@ -838,7 +847,8 @@ def gen_alias_arch(rnd):
         st[out]["time"] = [r for r in ranks if r not in st[out]["space"]]
     spec = Spec(decl, exprs, loop_order=lo, spacetime=st,
                 extra="\n".join(arch + b + fmt) + "\n",
-                tags=["metrics", "m-aliased-level", "m-einsums%d" % n, "m-configs2"])
+                tags=["metrics", "m-same-names-across-configs" if samename else "m-aliased-level",
+                      "m-einsums%d" % n, "m-configs2"])
     return spec
 
 
